@@ -5,7 +5,7 @@ from check import canon as canon_
 
 RULE = ("keygen and sign with aux in {none, all zero of many lengths, previously filled, every single-bit flip (quick: a stride) of a filled buffer, truncated, padded, "
         "00||garbage, in-use marker||garbage, filled for another seed, filled for the same seed with other parameters} x hashes; oracle: key pair / signature / successor "
-        "equal to the aux-free ones; after keygen on a fresh buffer: shrunk length, level word, MAC recomputed independently, and acceptance of the written buffer")
+        "equal to the aux-free ones; after keygen on a fresh buffer: shrunk length, level word, MAC recomputed independently, and acceptance of the written buffer; feature fast_verify: sign_mut with absent/fresh/short/filled/garbage buffers compared with the aux-free model for the returned trailer")
 ASSUMPTIONS = ["a MAC-valid buffer for a different seed would be a MAC forgery and is not constructed",
                "the hash-sigs layout (level word, cached levels h, h-2, ..., HMAC-like MAC keyed by H(prefix||seed)) is taken from aux.rs / the property statement"]
 
@@ -244,3 +244,58 @@ def run(ctx):
         if fields(r2[0][1]).get("vk") != fields(r2[1][1]).get("vk"):
             ctx.oracle_failures.append({"what": "a buffer filled for the same seed with other parameters changes the public key", "requests": [c.line[:200], r2[1][0].line[:300]],
                                         "observed": fields(r2[1][1]).get("vk"), "expected": fields(r2[0][1]).get("vk"), "aux_class": "same-seed-other-params"})
+
+    sign_mut_part(ctx)
+
+
+def sign_mut_part(ctx):
+    """sign_mut (cargo feature fast_verify) takes the same auxiliary buffer: the signature for the returned message must be the one the
+    aux-free model computes for that trailer, whatever the buffer holds"""
+    from . import C15
+    from check import canon
+    rng = ctx.rng
+    cfg = C15.CFGS_QUICK[0]
+    if not ctx.open(cfg, features=["fast_verify"]):
+        return
+    specs = [("S16", [(3, 5), (3, 5)], rng.bytes_(16)), ("K24", [(3, 1), (2, 5)], rng.bytes_(24)), ("S32", [(3, 5), (3, 1), (2, 1)], rng.bytes_(32)),
+             ("S24", [(3, 5)], rng.bytes_(24))]
+    if ctx.tier == "thorough":
+        specs += [(H, [(2, 5), (3, 5)], rng.bytes_(HASHES[H])) for H in ALL_H] + [("S16", [(3, 1)] * 4, rng.bytes_(16))]
+    keys = make_keys(ctx, specs, None)
+    fills = ctx.both([Case(keygen_line(k.H, k.params, k.seed, bytes(3000)), "fast_verify/keygen-fill", {"k": k}) for k in keys], None)
+    reqs = []
+    for (c0, a0, b0) in fills:
+        k = c0.meta["k"]
+        filled = unhx(fields(a0).get("aux", "")) if a0.startswith("ok") else b""
+        for cnt in sorted({0, 1, k.lifetime - 1, rng.randrange(k.lifetime)}):
+            body = rng.bytes_(rng.choice([3, 50]))
+            for tag, ax in (("none", None), ("fresh", bytes(3000)), ("fresh-short", bytes(4 + k.n + 40)), ("filled", filled or None),
+                            ("garbage", b"\0" + rng.bytes_(500))):
+                line = "signmut H=%s sk=%s msg=%s cb=accept" % (k.H, hx(k.blob(cnt)), hx(body + bytes(k.n)))
+                if ax is not None:
+                    line += " aux=" + hx(ax)
+                reqs.append((tag, k, line))
+    answers = [canon(a) for a in ctx.hz.batch([l for _, _, l in reqs])]
+    mlines, ver = [], []
+    for (tag, k, line), a in zip(reqs, answers):
+        ctx.evaluations += 1
+        ctx.classes[("fast_verify/signmut/aux-" + tag, cls_of(a))] = ctx.classes.get(("fast_verify/signmut/aux-" + tag, cls_of(a)), 0) + 1
+        if not a.startswith("ok"):
+            ctx.fail("sign_mut with an auxiliary buffer (%s) failed for a usable key" % tag, [line[:400]], a[:200], "ok")
+            continue
+        f = fields(a)
+        m2 = unhx(f["msg"])
+        base = line.split(" aux=")[0]
+        mlines.append((base + " trailer=" + hx(m2[-k.n:]), a, line, tag))
+        ver.append(Case(verify_line(k.H, m2, unhx(f["sig"]), k.vk), "fast_verify/verify/aux-" + tag, {"of": line}))
+    model = [canon(x) for x in ctx.dv.batch([m for m, _, _, _ in mlines])]
+    for (ml, a, line, tag), b in zip(mlines, model):
+        fa, fb = fields(a), fields(b)
+        if (fa.get("sig"), fa.get("cb"), fa.get("msg")) != (fb.get("sig"), fb.get("cb"), fb.get("msg")):
+            ctx.disagreements.append({"request": line[:600], "class": "fast_verify/signmut/aux-" + tag, "library": a[:300], "model": b[:300],
+                                      "library_observable": str(fa.get("sig"))[:64], "model_observable": str(fb.get("sig"))[:64]})
+            ctx.fail("sign_mut with an auxiliary buffer (%s) does not return the signature it returns without auxiliary data" % tag, [line[:400]],
+                     str(fa.get("sig"))[:80], str(fb.get("sig"))[:80])
+    for c, a, b in ctx.both(ver, None):
+        if a != "ok":
+            ctx.fail("a sign_mut signature made with an auxiliary buffer does not verify", [c.meta["of"][:400]], a, "ok")
